@@ -2,7 +2,7 @@
 from __future__ import annotations
 
 from ..common import all_conds, conds_at, nshow, outer_field, paths
-from ..expr import C, SELF, canon, norm, show, strip_epochs, walk
+from ..expr import C, SELF, canon, norm, posform, show, strip_epochs, walk
 from ..intervals import EQ, GT, LT, path_orderings
 from ..model import AnalysisError
 
@@ -84,6 +84,29 @@ def is_full_range(prog, ctx, fld, idx):
     from ..expr import mapx
     L = mapx(dom[2][0], lambda n: SELF if n[0] == "new" else None)  # a result built from the receiver's parameters
     return canon(L) in alloc_lengths(prog, ctx, fld)
+
+
+def operand_indices(prog, ctx, fld, exprs):
+    """the index at which the receiver's cells and the operand's cells of `fld` are read in `exprs` (row forms): (idx_self, idx_second)
+    when each side uses one index, the receiver's covers the full range and the operand's is the same walk (the same index, or the
+    same loop over the operand's own length - zip(self.F[:n], second.F[:second.n])); else None"""
+    from ..expr import rowform
+    by = {SELF: set(), SECOND: set()}
+    for x in exprs:
+        for n in walk(cellform(x, fld)):
+            if n[0] == "sub" and n[1][0] == "f" and n[1][2] == fld and n[1][1] in by:
+                by[n[1][1]].add(n[2])
+    if len(by[SELF]) != 1 or len(by[SECOND]) > 1:
+        return None
+    ia = next(iter(by[SELF]))
+    ib = next(iter(by[SECOND])) if by[SECOND] else ia
+    if not is_full_range(prog, ctx, fld, ia):
+        return None
+    if ib != ia:
+        same_walk = ia[0] in ("it", "ix") and ib[0] == ia[0] and ib[1] == ia[1] and canon(_swap_second(ib[2])) == canon(ia[2])
+        if not same_walk:
+            return None
+    return ia, ib
 
 
 def _swap_second(e):
@@ -310,7 +333,8 @@ def combine_rule(prog, rep, rid, ctx, fname, op):
                 wants += [canon(s), canon(("call", ("g", "min"), (s, C(2**32 - 1)), ()))]
             else:
                 wants.append(canon(("bin", op, x, y)))
-        if v in wants:
+        # ... or the same cells named by position (zip / enumerate / slices of the arrays)
+        if v in wants or canon(posform(strip_epochs(e.value))) in [canon(posform(w)) for w in wants]:
             good += 1
         else:
             rep.bad(rid, where, f"store {nshow(e.value)}",
@@ -332,8 +356,38 @@ def combine_rule(prog, rep, rid, ctx, fname, op):
         rep.ok(rid, f"{where}: res[i] = self[i] {op} second[i] over range(bloom_length), result from receiver's parameters")
 
 
+def cellform(x, fld="_bloom"):
+    """row form in which an element bound by walking the array itself (for v in self.F / zip(self.F, second.F)) is written as the
+    cell it is: F[<position of that walk>]"""
+    from ..expr import mapx, rowform
+
+    def f(n):
+        if n[0] == "it" and n[2][0] == "f" and n[2][2] == fld:
+            base = ("f", n[2][1], fld, 0)
+            return ("sub", base, ("ix", n[1], base), 0)
+        return None
+    return mapx(strip_epochs(rowform(x)), f)
+
+
 def nonzero_rows(conds, a, b):
-    """possible (a-nonzero, b-nonzero) rows under a path condition, for unsigned cells"""
-    oa = path_orderings(conds, a, C(0)) & {EQ, GT}
-    ob = path_orderings(conds, b, C(0)) & {EQ, GT}
-    return {(x == GT, y == GT) for x in oa for y in ob}
+    """possible (a-nonzero, b-nonzero) rows under a path condition, for unsigned cells.  Besides comparisons with 0 the
+    condition may use the cells' truthiness (`if mine and theirs`, `if not mine`) and `mine | theirs` (non-zero iff either is)."""
+    plain = []
+    either = []  # (truth) of "a | b is non-zero"
+    for c in conds:
+        neg = c[0] == "un" and c[1] == "not"
+        x = c[2] if neg else c
+        if x in (a, b):
+            plain.append(("cmp", "==" if neg else "!=", x, C(0)))
+        elif x[0] == "nary" and x[1] == "|" and set(x[2]) == {a, b}:
+            either.append(not neg)
+        elif x[0] == "cmp" and x[1] in ("!=", ">", "==") and x[3] == C(0) and x[2][0] == "nary" and x[2][1] == "|" and set(x[2][2]) == {a, b}:
+            either.append((x[1] != "==") != neg)
+        else:
+            plain.append(c)
+    oa = path_orderings(plain, a, C(0)) & {EQ, GT}
+    ob = path_orderings(plain, b, C(0)) & {EQ, GT}
+    rows = {(x == GT, y == GT) for x in oa for y in ob}
+    for t in either:
+        rows = {r for r in rows if (r != (False, False)) == t}
+    return rows
